@@ -350,31 +350,41 @@ class StepTimeout(Exception):
     """the code under test did not return from one step within the deadline (nontermination)"""
 
 
+class _Alarm(BaseException):
+    """raised by the SIGALRM handler inside the code under test; a BaseException so that an `except Exception` there
+    cannot swallow it (deadline.__exit__ turns it into StepTimeout once control is back in the harness)"""
+
+
 class deadline(object):
-    """with deadline(5): ... raises StepTimeout in the main thread when the block runs longer (SIGALRM based; a step of
-    the code under test takes microseconds, so any generous limit only ever fires on an endless loop)"""
+    """with deadline(10): ... raises StepTimeout when the block runs longer (SIGALRM on wall-clock time, main thread only;
+    the alarm repeats every second in case the first one is caught and dropped inside the block).  A step of the code
+    under test takes microseconds, so the limit only ever fires on an endless loop."""
 
     def __init__(self, seconds=20):
         self.seconds = seconds
         self.armed = False
 
     def _fire(self, signum, frame):
-        raise StepTimeout("no return within %ss" % self.seconds)
+        if frame is not None and not getattr(self, "at", None):
+            self.at = "%s:%s line %d" % (frame.f_code.co_filename.split("/ioflo/")[-1], frame.f_code.co_name, frame.f_lineno)
+        raise _Alarm()
 
     def __enter__(self):
         import signal
         import threading
         if threading.current_thread() is threading.main_thread():
             self.old = signal.signal(signal.SIGALRM, self._fire)
-            signal.setitimer(signal.ITIMER_REAL, self.seconds)
+            signal.setitimer(signal.ITIMER_REAL, self.seconds, 1.0)
             self.armed = True
         return self
 
-    def __exit__(self, *a):
+    def __exit__(self, etype, evalue, tb):
         if self.armed:
             import signal
             signal.setitimer(signal.ITIMER_REAL, 0)
             signal.signal(signal.SIGALRM, self.old)
+        if etype is not None and issubclass(etype, _Alarm):
+            raise StepTimeout("no return within %ss (interrupted in %s)" % (self.seconds, getattr(self, "at", "?")))
         return False
 
 
